@@ -190,6 +190,19 @@ def parameter_lists(check, tier):
              [(q, str(v)) for v in range(0, 111) for q in ("1", "44")]
     lists += [("38", "2", "10", "20"), ("38", "2", "10", "20", "30"), ("48", "2", "1", "2", "3"), ("1", "38", "5"), ("38", "5", "196", "1"),
               ("48", "5"), ("38",), ("38", "2"), ("0", "48", "2", "9")]
+    # the arguments of the extended-colour selectors are numbers like any other: out of range (a colour channel of 256, 400, 1000, 99999),
+    # absurdly long (hundreds of digits), empty, in every position, for both selectors and both planes
+    big = ["256", "383", "400", "893", "1000", "1913", "99999", "9" * 40, "9" * 320, "", "0", "255"]
+    for plane in ("38", "48"):
+        for sel in ("2", "5"):
+            n_args = 3 if sel == "2" else 1
+            for pos in range(n_args):
+                for v in big:
+                    args = ["0"] * n_args
+                    args[pos] = v
+                    lists.append((plane, sel) + tuple(args))
+                    lists.append(("1", plane, sel) + tuple(args) + ("4",))
+            lists.append((plane, sel) + tuple(["400"] * n_args))
     for ps in lists:
         for fin in ("m", "H"):
             if fin == "H" and len(ps) == 3 and hash(ps) % 5:
